@@ -6,6 +6,7 @@ mod p_c02;
 mod p_c03;
 mod p_c04;
 mod p_c05;
+mod p_c05b;
 mod p_c07;
 mod p_c08;
 mod p_c09;
